@@ -698,7 +698,11 @@ def run(ctx):
                 return True
         return False
 
-    ntx = _expand(prog, nt, local_only=True)   # a size-computing helper is read in place
+    _inl.use_types(_Types(prog, M))   # `tbl.add_tr(...).add_tcs(n)`: helpers of the row element are read in place too
+    try:
+        ntx = _expand(prog, nt, local_only=True, skip_names=("add_tr", "add_gridCol", "add_tc", "_add_tr", "_add_gridCol", "_add_tc"))
+    finally:
+        _inl.use_types(None)
     for st in [s_ for s_ in ntx.body if not (isinstance(s_, ast.Expr) and isinstance(s_.value, ast.Constant))]:
         if list_stmt(st):
             continue
@@ -886,7 +890,7 @@ def run(ctx):
         for st in lp.body:
             if isinstance(st, ast.For) and isinstance(st.iter, ast.Call) and dotted(st.iter.func) == "range" \
                     and len(st.iter.args) == 1 and of_expr(st.iter.args[0]) == Poly.sym("cols"):
-                calls = [c for c in ast.walk(st) if isinstance(c, ast.Call) and dotted(c.func) == "%s.add_tc" % trvar]
+                calls = [c for c in ast.walk(st) if isinstance(c, ast.Call) and dotted(c.func) in ("%s.add_tc" % trvar, "%s._add_tc" % trvar)]
                 conds = [c for c in ast.walk(st) if isinstance(c, (ast.If, ast.Break, ast.Continue))]
                 good = len(calls) == 1 and not conds
             if isinstance(st, ast.For) and isinstance(st.iter, ast.Call) and dotted(st.iter.func) == "range":
@@ -929,14 +933,32 @@ def run(ctx):
     # who may add / remove structure
     structural = {"add_tr", "_add_tr", "add_tc", "_add_tc", "add_gridCol", "_add_gridCol", "_insert_tr", "_insert_tc", "_insert_gridCol",
                   "_remove_tr", "_remove_tc", "_remove_gridCol"}
-    allowed = {"CT_Table.new_tbl", "CT_Table.add_tr", "CT_TableRow.add_tc", "CT_TableGrid.add_gridCol"}
+    # who may change the structure: new_tbl, and the *primitives* - methods of the table element classes that add to their own
+    # element (`self._add_tc()`); calling a primitive is changing the structure too, so the set of structural operations is closed
+    # under "primitive that calls one" and every other caller is reported
+    structural = set(structural)
+    primitives = set()
+    changed_ = True
+    while changed_:
+        changed_ = False
+        for g in prog.all_functions():
+            if g.module is not omod or g.cls is None or g.qualname == "CT_Table.new_tbl":
+                continue
+            for n in ast.walk(g.node):
+                if isinstance(n, ast.Call) and isinstance(n.func, ast.Attribute) and n.func.attr in structural and dotted(n.func.value) == "self" \
+                        and g.name not in structural:
+                    structural.add(g.name)
+                    primitives.add(g.qualname)
+                    changed_ = True
+                elif isinstance(n, ast.Call) and isinstance(n.func, ast.Attribute) and n.func.attr in structural and dotted(n.func.value) == "self":
+                    primitives.add(g.qualname)
     nsite = 0
     for g in prog.all_functions():
         for n in ast.walk(g.node):
             if isinstance(n, ast.Call) and isinstance(n.func, ast.Attribute) and n.func.attr in structural:
                 nsite += 1
                 key = "structure:%s" % g.qualname
-                if g.qualname in allowed:
+                if g.qualname == "CT_Table.new_tbl" or (g.qualname in primitives and dotted(n.func.value) == "self"):
                     ctx.ok("R14.5", key + ":" + n.func.attr, nontrivial=False)
                 else:
                     ctx.violation("R14.5", key, "%s adds or removes table structure (%s) outside new_tbl: nothing keeps every row at "
